@@ -1,4 +1,8 @@
-------------------------------- MODULE DipTree -------------------------------
+----------------------------- MODULE DipTreeOld -----------------------------
+(* ARCHIVE: DipTree.tla as it was before fix 09572d2 of /repo - the transcription of the earlier *)
+(* name-path branching algorithm (string comparison of case paths, innermost block only), whose *)
+(* eight classes of disagreement with the ideal were the open findings of C15.  Not used by any  *)
+(* check; kept as the record of what the machine-vs-ideal model checking found.                 *)
 (***************************************************************************)
 (* DIP texts at line level: groups, node definitions, modifications and    *)
 (* @case/@else/@end clauses arranged by indentation (properties C13, C14   *)
@@ -15,9 +19,7 @@
 (* indentation, clause lines transparent for names, block-structured       *)
 (* clauses, a line takes effect iff every enclosing clause is selected.    *)
 (* MACHINE (MachRun): what dip.py / list_hierarchy.py / list_branching.py  *)
-(* do, line by line (since fix 09572d2: blocks delimited by indentation;   *)
-(* the transcription of the earlier name-path algorithm, with its string   *)
-(* comparison of case paths, is kept in DipTreeOld.tla for the record).    *)
+(* do, line by line, including the string comparisons on case paths.       *)
 (***************************************************************************)
 EXTENDS Naturals, Sequences, FiniteSets, TLC
 
@@ -119,71 +121,80 @@ StrLess(p, q) == LexLess(Chars(p), Chars(q))        \* Python  p < q  on the dot
 
 MInit == [par |-> <<>>,          \* HierarchyList.parents : [ind, nm]
           bst |-> <<>>,          \* BranchingList.state   : open branch ids
-          br  |-> <<>>,          \* branches[id]         : sequence (by branch id) of [cases |-> case ids, ind |-> indentation]
-          cs  |-> <<>>,          \* cases[id]            : [val, known] ; known = FALSE for ids used by @end
+          br  |-> <<>>,          \* branches[id].cases    : sequence (by branch id) of sequences of case ids
+          cs  |-> <<>>,          \* cases[id]             : [path, val, known] ; known = FALSE for ids used by @end
           nodes |-> <<>>, err |-> ""]
 
-NoCase == [val |-> FALSE, known |-> FALSE]
+NoCase == [path |-> <<>>, val |-> FALSE, known |-> FALSE]
+AnyCase(st) == \E j \in 1..Len(st.cs) : st.cs[j].known
+CurCase(st) == Last(st.br[Last(st.bst)])
+PathOld(st) == IF st.bst # <<>> THEN st.cs[CurCase(st)].path ELSE <<>>
 
-\* BranchingList.close_ended(indent, clause): blocks end at a line indented no deeper than their keyword
-RECURSIVE CloseEnded(_, _, _)
-CloseEnded(st, i, clause) ==
-  IF st.bst # <<>> /\ (i < st.br[Last(st.bst)].ind \/ (i = st.br[Last(st.bst)].ind /\ ~clause))
-  THEN CloseEnded([st EXCEPT !.bst = Front(st.bst)], i, clause) ELSE st
-
-\* one branch is "false" when its current clause is not the first true one
-BranchFalse(st, b) ==
-  LET cases == st.br[b].cases
-      numtrue == Cardinality({j \in 1..Len(cases) : st.cs[cases[j]].val})
-  IN numtrue # 1 \/ ~st.cs[Last(cases)].val
-\* BranchingList.false_case(indent): any open branch (except the one at `skip` indentation) is false
-FalseCase(st, skip) ==
-  \E j \in 1..Len(st.bst) : st.br[st.bst[j]].ind # skip /\ BranchFalse(st, st.bst[j])
-NoSkip == 99
+\* BranchingList.false_case
+FalseCase(st) ==
+  IF st.bst = <<>> THEN FALSE
+  ELSE LET b == st.br[Last(st.bst)]
+           numtrue == Cardinality({j \in 1..Len(b) : st.cs[b[j]].val})
+       IN numtrue # 1 \/ ~st.cs[Last(b)].val
 
 \* HierarchyList.register
 RECURSIVE PopPar(_, _)
 PopPar(par, i) == IF par # <<>> /\ i <= Last(par).ind THEN PopPar(Front(par), i) ELSE par
 RECURSIVE JoinPar(_)
 JoinPar(par) == IF par = <<>> THEN <<>> ELSE JoinPar(Front(par)) \o Last(par).nm
+
+\* name.startswith(case path) ; a path is parent components followed by "@"
+StartsWith(name, path) ==
+  LET P == Front(path) IN Len(name) > Len(P) /\ SubSeq(name, 1, Len(P)) = P /\ IsCaseComp(name[Len(P) + 1])
 Clean(name) == SelectSeq(name, LAMBDA c : ~IsCaseComp(c))
 
-SwitchCase(st, id) == [st EXCEPT !.br[Last(st.bst)].cases = Append(@, id)]
-OpenBranch(st, id, i) == [st EXCEPT !.br = Append(st.br, [cases |-> <<id>>, ind |-> i]), !.bst = Append(st.bst, Len(st.br) + 1)]
+\* the loop `while path_new != path_old: _close_branch()` ; popping an empty list raises IndexError
+RECURSIVE CloseUntil(_, _)
+CloseUntil(st, pnew) ==
+  IF PathOld(st) = pnew THEN st
+  ELSE IF st.bst = <<>> THEN [st EXCEPT !.err = "IndexError"]
+  ELSE CloseUntil([st EXCEPT !.bst = Front(st.bst)], pnew)
 
-\* BranchingList.solve_case
-SolveCase(st0, ln, id, val) ==
-  LET st   == CloseEnded(st0, ln.ind, TRUE)
-      same == st.bst # <<>> /\ st.br[Last(st.bst)].ind = ln.ind
-      reg(s) == [s EXCEPT !.cs[id] = [val |-> val, known |-> TRUE]]
-  IN IF ln.k = "case" THEN (IF same THEN reg(SwitchCase(st, id)) ELSE reg(OpenBranch(st, id, ln.ind)))
-     ELSE IF ln.k = "else" /\ same THEN reg(SwitchCase(st, id))
-     ELSE IF ln.k = "end" /\ same THEN [st EXCEPT !.bst = Front(st.bst)]
-     ELSE [st EXCEPT !.err = "Invalid condition"]
+SwitchCase(st, id) == [st EXCEPT !.br[Last(st.bst)] = Append(@, id)]
+OpenBranch(st, id) == [st EXCEPT !.br = Append(st.br, <<id>>), !.bst = Append(st.bst, Len(st.br) + 1)]
 
-MStep(st0, ln) ==
-  IF st0.err # "" THEN st0
+\* BranchingList.solve_case for the clause whose hierarchical name is full, id its case id
+SolveCase(st, ln, full, id, val) ==
+  LET pnew == Front(full) \o <<"@">>
+      pold == PathOld(st)
+      reg(s) == [s EXCEPT !.cs[id] = [path |-> pnew, val |-> val, known |-> TRUE]]
+  IN IF ln.k = "end"
+     THEN IF AnyCase(st) /\ pold = pnew THEN [st EXCEPT !.bst = Front(st.bst)]
+          ELSE [st EXCEPT !.err = "Invalid condition"]
+     ELSE IF ln.k = "else" /\ ~AnyCase(st) THEN [st EXCEPT !.err = "Invalid condition"]
+     ELSE IF pnew = pold THEN reg(SwitchCase(st, id))
+     ELSE IF StrLess(pnew, pold)
+          THEN LET c == CloseUntil(st, pnew) IN IF c.err # "" THEN c ELSE reg(SwitchCase(c, id))
+     ELSE reg(OpenBranch(st, id))
+
+MStep(st, ln) ==
+  IF st.err # "" THEN st
   ELSE
-   LET \* (0) DIP.parse: close_ended for every line that is not empty / a property
-       st   == CloseEnded(st0, ln.ind, IsClause(ln))
-       \* (a) node.parse: a clause line always registers a case id and gets the name @<id>;
-       \*     a @case inside an unselected clause is not evaluated and counts as false
+   LET \* (a) node.parse: a clause line always registers a case id and gets the name @<id>
        id   == Len(st.cs) + 1
        st1  == IF IsClause(ln) THEN [st EXCEPT !.cs = Append(st.cs, NoCase)] ELSE st
        nm   == IF IsClause(ln) THEN ln.nm \o <<CaseComp(id)>> ELSE ln.nm
-       val  == IF ln.k = "case" THEN (ln.c /\ ~FalseCase(st1, ln.ind)) ELSE TRUE
+       val  == IF ln.k = "case" THEN ln.c ELSE TRUE
        \* (b) hierarchy.register
        par2 == Append(PopPar(st1.par, ln.ind), [ind |-> ln.ind, nm |-> nm])
        full == JoinPar(par2)
        st2  == [st1 EXCEPT !.par = par2]
    IN IF ln.k = "grp" THEN st2
-      ELSE IF IsClause(ln) THEN SolveCase(st2, ln, id, val)
-      ELSE IF FalseCase(st2, NoSkip) THEN st2
-      ELSE LET name == Clean(full)
-               j    == IndexOfPath(st2.nodes, name)
-           IN IF j # 0 THEN [st2 EXCEPT !.nodes[j].v = ln.v]
-              ELSE IF ln.k = "mod" THEN [st2 EXCEPT !.err = "Modifying undefined node"]
-              ELSE [st2 EXCEPT !.nodes = Append(st2.nodes, [p |-> name, v |-> ln.v])]
+      ELSE IF IsClause(ln) THEN SolveCase(st2, ln, full, id, val)
+      ELSE IF FalseCase(st2) THEN st2
+      ELSE \* prepare_node: one branch is closed when the name does not start with the case path
+           LET st3 == IF st2.bst # <<>> /\ ~StartsWith(full, st2.cs[CurCase(st2)].path)
+                      THEN [st2 EXCEPT !.bst = Front(st2.bst)] ELSE st2
+               name == Clean(full)
+               j    == IndexOfPath(st3.nodes, name)
+           IN IF j # 0 THEN [st3 EXCEPT !.nodes[j].v = ln.v]
+              ELSE IF ln.k = "mod" THEN [st3 EXCEPT !.err = "Modifying undefined node"]
+              ELSE [st3 EXCEPT !.nodes = Append(st3.nodes, [p |-> name, v |-> ln.v])]
 
 RECURSIVE MFold(_, _)
 MFold(st, text) == IF text = <<>> THEN st ELSE MFold(MStep(st, Head(text)), Tail(text))
